@@ -25,7 +25,7 @@ def run_one(prop: str, tier: str, seed: int, prog=None, evidence_dir=None, quiet
         res.units = len(prog.modules)
         res.functions = len(prog.functions)
         mod.run(prog, res)
-        if hasattr(mod, "selftest"):
+        if hasattr(mod, "selftest") and not os.environ.get("PVLINT_NO_SELFTEST"):
             mod.selftest(res, tier, seed)
     except AnalysisError as exc:
         res.errors.append(str(exc))
